@@ -1295,10 +1295,10 @@ package storage
 //@ func (n *btreeNode) encodeInternal() (*bytes.Buffer, error)
 //@   props C12 C16
 //@   requires slotsOK(n) && !n.isLeaf && cnt(n) <= maxInternal
-//@   ensures[total; C12] err == nil && result0 != nil && fresh(result0)
-//@   ensures[onepage; C12] bufr(result0) == 0 && bufw(result0) == 4096
-//@   ensures[kind; C12] bufdata(result0, 0) == 0
-//@   ensures[image; C12] old(intIs(n)) ==> intImage(result0, 0)
+//@   ensures[total; C12 C16] err == nil && result0 != nil && fresh(result0)
+//@   ensures[onepage; C12 C16] bufr(result0) == 0 && bufw(result0) == 4096
+//@   ensures[kind; C12 C16] bufdata(result0, 0) == 0
+//@   ensures[image; C12 C16] old(intIs(n)) ==> intImage(result0, 0)
 //@   loop 1 invariant 0 <= i && i <= cnt(n) && bufr(buf) == 0 && bufw(buf) == 29 + 2*i && bufdata(buf,0) == 0
 //@   loop 1 invariant[hdr] old(intIs(n)) ==> intHdr(buf,0) && intOffs(buf,0,i)
 //@   loop 2 invariant 0 <= i && i <= cellCount && cellCount == cnt(n) && bufr(bufFooter) == 0 && bufw(bufFooter) == 12*i && bufFooter != buf
@@ -1310,9 +1310,9 @@ package storage
 //@   requires buf != nil && aiWF() && len(n.offsets) == 0 && cap(n.offsets) == 0
 //@   requires bufw(buf) - bufr(buf) >= 4096 && intImage(buf, bufr(buf))
 //@   modifies n.fileOffset, n.lastLSN, n.rightOffset, n.offsets, n.freeSize, n.internalCells, bufr(buf), bufver(buf)
-//@   ensures[total; C12] result == nil && bufr(buf) == old(bufr(buf)) + 4096
-//@   ensures[content; C12] intIs(n)
-//@   ensures[shape; C12] len(n.internalCells) == aiCnt() && (forall i int :: 0 <= i && i < aiCnt() ==> ic(n,i) != nil)
+//@   ensures[total; C12 C16] result == nil && bufr(buf) == old(bufr(buf)) + 4096
+//@   ensures[content; C12 C16] intIs(n)
+//@   ensures[shape; C12 C16] len(n.internalCells) == aiCnt() && (forall i int :: 0 <= i && i < aiCnt() ==> ic(n,i) != nil)
 //@   loop 1 invariant 0 <= i && i <= cellCount && cellCount == aiCnt() && len(n.offsets) == i && bufr(buf) == old(bufr(buf)) + 29 + 2*i && bufw(buf) == old(bufw(buf))
 //@   loop 1 invariant (i == 0 ? cap(n.offsets) == 0 : fresh(n.offsets))
 //@   loop 1 invariant forall j int :: 0 <= j && j < i ==> n.offsets[j] == aiOff(j)
@@ -1363,11 +1363,11 @@ package storage
 //@ func (n *btreeNode) encodeLeaf() (*bytes.Buffer, error)
 //@   props C12 C16
 //@   requires slotsOK(n) && n.isLeaf && cnt(n) <= maxLeaf && sizesOK(n) && (forall i int :: 0 <= i && i < cnt(n) ==> len(lc(n,i).valueBytes) <= maxValue)
-//@   ensures[total; C12] err == nil && result0 != nil && fresh(result0)
-//@   ensures[onepage; C12] bufr(result0) == 0 && bufw(result0) == 4096
-//@   ensures[kind; C12] bufdata(result0, 0) == 1
-//@   ensures[image; C12] old(leafIs(n)) ==> leafImage(result0, 0)
-//@   ensures[fits; C12] old(leafIs(n)) ==> alFree() >= 0
+//@   ensures[total; C12 C16] err == nil && result0 != nil && fresh(result0)
+//@   ensures[onepage; C12 C16] bufr(result0) == 0 && bufw(result0) == 4096
+//@   ensures[kind; C12 C16] bufdata(result0, 0) == 1
+//@   ensures[image; C12 C16] old(leafIs(n)) ==> leafImage(result0, 0)
+//@   ensures[fits; C12 C16] old(leafIs(n)) ==> alFree() >= 0
 //@   loop 1 invariant 0 <= i && i <= cnt(n) && bufr(buf) == 0 && bufw(buf) == 39 + 2*i && bufdata(buf,0) == 1
 //@   loop 1 invariant[hdr] old(leafIs(n)) ==> leafHdr(buf,0) && leafOffs(buf,0,i)
 //@   loop 2 invariant 0 <= i && i <= cellCount && cellCount == cnt(n) && bufr(bufFooter) == 0 && 0 <= bufw(bufFooter) && bufw(bufFooter) <= 409*i && bufFooter != buf
@@ -1380,9 +1380,9 @@ package storage
 //@   requires buf != nil && alWF() && len(n.offsets) == 0 && cap(n.offsets) == 0
 //@   requires bufw(buf) - bufr(buf) >= 4096 && leafImage(buf, bufr(buf))
 //@   modifies n.fileOffset, n.lastLSN, n.hasLSib, n.hasRSib, n.lSibFileOffset, n.rSibFileOffset, n.offsets, n.freeSize, n.leafCells, bufr(buf), bufver(buf)
-//@   ensures[total; C12] result == nil && bufr(buf) == old(bufr(buf)) + 4096
-//@   ensures[content; C12] leafIs(n)
-//@   ensures[shape; C12] len(n.leafCells) == alCnt() && (forall i int :: 0 <= i && i < alCnt() ==> lc(n,i) != nil)
+//@   ensures[total; C12 C16] result == nil && bufr(buf) == old(bufr(buf)) + 4096
+//@   ensures[content; C12 C16] leafIs(n)
+//@   ensures[shape; C12 C16] len(n.leafCells) == alCnt() && (forall i int :: 0 <= i && i < alCnt() ==> lc(n,i) != nil)
 //@   loop 1 invariant 0 <= i && i <= cellCount && cellCount == alCnt() && len(n.offsets) == i && bufr(buf) == old(bufr(buf)) + 39 + 2*i && bufw(buf) == old(bufw(buf))
 //@   loop 1 invariant (i == 0 ? cap(n.offsets) == 0 : fresh(n.offsets))
 //@   loop 1 invariant forall j int :: 0 <= j && j < i ==> n.offsets[j] == alOff(j)
